@@ -56,8 +56,13 @@ Definition tok_of (c : cfg) (d : Z) : option (bool * Z * Z) := assoc d (c_tok c)
 (* what the tree implements at the two repair sites *)
 Record variant := mkVariant {
   v_owner_check : bool;    (* ClaimUndelegation compares undelegation.Address with msg.Sender *)
-  v_end_rule : Z           (* distributor EndBlocker deletes votes with: 0: height+snap > now (fresh ones),
+  v_end_rule : Z;          (* distributor EndBlocker deletes votes with: 0: height+snap > now (fresh ones),
                               1: height+snap <= now (expired ones), 2: nothing *)
+  v_signers_only : bool;   (* BeginBlocker records a vote only for validators with SignedLastBlock *)
+  v_prefix_ok : bool;      (* Undelegate looks for the share-denom prefix "v<id>/" (not "v<id>_") before dropping the delegator *)
+  v_redeem_rule : Z;       (* shares burnt by Undelegate: 0: GetPoolCoins = round(x*(1-slashed));
+                              1: pro rata to the books, ceil(x*shares/stake) *)
+  v_burn_registry : bool   (* Undelegate burns through the tokens keeper (TokenInfo.Supply follows) *)
 }.
 Definition end_deletes (rule h snap now : Z) : bool :=
   if rule =? 0 then now <? h + snap else if rule =? 1 then h + snap <=? now else false.
@@ -81,48 +86,49 @@ Record st := mkSt {
   dels : list Z;               (* pool delegators, ascending *)
   comp : Z -> (bool * list Z * Z);   (* compound info: AllDenom, CompoundDenoms, LastExecBlock *)
   votes : list (Z * Z);        (* (validator, height) *)
-  prev : Z                     (* previous proposer *)
+  prev : Z;                    (* previous proposer *)
+  tsup : cmap                  (* tokens-module registry record TokenInfo.Supply of the share tokens *)
 }.
 
 Definition set_pool (s : st) (sl : Z) (stk shr : cmap) : st :=
   mkSt (time s) (height s) sl stk shr (ssup s) (modb s) (fee s) (treas s) (nbal s) (sbal s) (rew s)
-       (undels s) (last s) (dels s) (comp s) (votes s) (prev s).
+       (undels s) (last s) (dels s) (comp s) (votes s) (prev s) (tsup s).
 Definition set_ssup (s : st) (v : cmap) : st :=
   mkSt (time s) (height s) (slashed s) (stake s) (shares s) v (modb s) (fee s) (treas s) (nbal s) (sbal s) (rew s)
-       (undels s) (last s) (dels s) (comp s) (votes s) (prev s).
+       (undels s) (last s) (dels s) (comp s) (votes s) (prev s) (tsup s).
 Definition set_modb (s : st) (v : cmap) : st :=
   mkSt (time s) (height s) (slashed s) (stake s) (shares s) (ssup s) v (fee s) (treas s) (nbal s) (sbal s) (rew s)
-       (undels s) (last s) (dels s) (comp s) (votes s) (prev s).
+       (undels s) (last s) (dels s) (comp s) (votes s) (prev s) (tsup s).
 Definition set_fee (s : st) (v : cmap) : st :=
   mkSt (time s) (height s) (slashed s) (stake s) (shares s) (ssup s) (modb s) v (treas s) (nbal s) (sbal s) (rew s)
-       (undels s) (last s) (dels s) (comp s) (votes s) (prev s).
+       (undels s) (last s) (dels s) (comp s) (votes s) (prev s) (tsup s).
 Definition set_treas (s : st) (v : cmap) : st :=
   mkSt (time s) (height s) (slashed s) (stake s) (shares s) (ssup s) (modb s) (fee s) v (nbal s) (sbal s) (rew s)
-       (undels s) (last s) (dels s) (comp s) (votes s) (prev s).
+       (undels s) (last s) (dels s) (comp s) (votes s) (prev s) (tsup s).
 Definition set_nbal (s : st) (v : amap) : st :=
   mkSt (time s) (height s) (slashed s) (stake s) (shares s) (ssup s) (modb s) (fee s) (treas s) v (sbal s) (rew s)
-       (undels s) (last s) (dels s) (comp s) (votes s) (prev s).
+       (undels s) (last s) (dels s) (comp s) (votes s) (prev s) (tsup s).
 Definition set_sbal (s : st) (v : amap) : st :=
   mkSt (time s) (height s) (slashed s) (stake s) (shares s) (ssup s) (modb s) (fee s) (treas s) (nbal s) v (rew s)
-       (undels s) (last s) (dels s) (comp s) (votes s) (prev s).
+       (undels s) (last s) (dels s) (comp s) (votes s) (prev s) (tsup s).
 Definition set_rew (s : st) (v : amap) : st :=
   mkSt (time s) (height s) (slashed s) (stake s) (shares s) (ssup s) (modb s) (fee s) (treas s) (nbal s) (sbal s) v
-       (undels s) (last s) (dels s) (comp s) (votes s) (prev s).
+       (undels s) (last s) (dels s) (comp s) (votes s) (prev s) (tsup s).
 Definition set_undels (s : st) (u : list undel) (l : Z) : st :=
   mkSt (time s) (height s) (slashed s) (stake s) (shares s) (ssup s) (modb s) (fee s) (treas s) (nbal s) (sbal s) (rew s)
-       u l (dels s) (comp s) (votes s) (prev s).
+       u l (dels s) (comp s) (votes s) (prev s) (tsup s).
 Definition set_dels (s : st) (v : list Z) : st :=
   mkSt (time s) (height s) (slashed s) (stake s) (shares s) (ssup s) (modb s) (fee s) (treas s) (nbal s) (sbal s) (rew s)
-       (undels s) (last s) v (comp s) (votes s) (prev s).
+       (undels s) (last s) v (comp s) (votes s) (prev s) (tsup s).
 Definition set_comp (s : st) (v : Z -> (bool * list Z * Z)) : st :=
   mkSt (time s) (height s) (slashed s) (stake s) (shares s) (ssup s) (modb s) (fee s) (treas s) (nbal s) (sbal s) (rew s)
-       (undels s) (last s) (dels s) v (votes s) (prev s).
+       (undels s) (last s) (dels s) v (votes s) (prev s) (tsup s).
 Definition set_votes (s : st) (v : list (Z * Z)) (p : Z) : st :=
   mkSt (time s) (height s) (slashed s) (stake s) (shares s) (ssup s) (modb s) (fee s) (treas s) (nbal s) (sbal s) (rew s)
-       (undels s) (last s) (dels s) (comp s) v p.
+       (undels s) (last s) (dels s) (comp s) v p (tsup s).
 Definition set_clock (s : st) (t h : Z) : st :=
   mkSt t h (slashed s) (stake s) (shares s) (ssup s) (modb s) (fee s) (treas s) (nbal s) (sbal s) (rew s)
-       (undels s) (last s) (dels s) (comp s) (votes s) (prev s).
+       (undels s) (last s) (dels s) (comp s) (votes s) (prev s) (tsup s).
 
 (* ---------------------------------------------------------------- share / stake conversion *)
 (* GetPoolCoins: NewDecFromInt(amount).Mul(OneDec().Sub(pool.Slashed)).RoundInt() *)
@@ -150,20 +156,34 @@ Definition delegate (c : cfg) (who : Z) (amts : coins) (s : st) : outcome st :=
   if existsb (fun c => snd c <? 0) pc then Panic "negative coin amount" else
   Ok (mkSt (time s) (height s) (slashed s) (cadds (stake s) amts) (cadds (shares s) pc) (cadds (ssup s) pc)
            (cadds (modb s) amts) (fee s) (treas s) (asubs (nbal s) who amts) (aadds (sbal s) who pc) (rew s)
-           (undels s) (last s) (zinsert who (dels s)) (comp s) (votes s) (prev s)).
+           (undels s) (last s) (zinsert who (dels s)) (comp s) (votes s) (prev s) (cadds (tsup s) pc)).
 
-(* keeper.Undelegate.  The delegator is always dropped from the pool's delegator list: the code
+(* shares to burn for redeeming [amts]: as GetPoolCoins does, or pro rata to the books rounded up *)
+Definition ceil_div (a b : Z) : Z := Z.quot (a + (b - 1)) b.
+Fixpoint redeem_coins (v : variant) (s : st) (amts : coins) : outcome coins :=
+  match amts with
+  | [] => Ok []
+  | (d, x) :: r =>
+      if v_redeem_rule v =? 0 then do t <- redeem_coins v s r; Ok ((d, pool_coin x (slashed s)) :: t)
+      else if stake s d <=? 0 then Err "insufficient total staking tokens"
+      else do t <- redeem_coins v s r; Ok ((d, ceil_div (x * shares s d) (stake s d)) :: t)
+  end.
+
+(* keeper.Undelegate.  As the tree was, the delegator is always dropped from the pool's delegator list: the code
    looks for the prefix "v<id>_" in the balance string while share denoms are "v<id>/..." *)
-Definition undelegate (c : cfg) (who : Z) (amts : coins) (s : st) : outcome st :=
-  let pc := pool_coins (slashed s) amts in
+Definition undelegate (v : variant) (c : cfg) (who : Z) (amts : coins) (s : st) : outcome st :=
+  do pc <- redeem_coins v s amts;
   if existsb (fun c => snd c <? 0) pc then Panic "negative coin amount" else
   if negb (all_gte (sbal s who) pc) then Err "insufficient shares" else
   if negb (all_gte (stake s) amts) then Err "insufficient total staking tokens" else
   if negb (all_gte (shares s) pc) then Panic "negative coin amount" else
+  let sb := asubs (sbal s) who pc in
+  let keeps := v_prefix_ok v && existsb (fun d => 0 <? sb who d) (c_dens c) in
   Ok (mkSt (time s) (height s) (slashed s) (csubs (stake s) amts) (csubs (shares s) pc) (csubs (ssup s) pc)
-           (modb s) (fee s) (treas s) (nbal s) (asubs (sbal s) who pc) (rew s)
+           (modb s) (fee s) (treas s) (nbal s) sb (rew s)
            (undels s ++ [mkUndel (last s + 1) who (time s + c_unstake c) amts]) (last s + 1)
-           (zremove who (dels s)) (comp s) (votes s) (prev s)).
+           (if keeps then dels s else zremove who (dels s)) (comp s) (votes s) (prev s)
+           (if v_burn_registry v then csubs (tsup s) pc else tsup s)).
 
 Fixpoint find_undel (id : Z) (l : list undel) : option undel :=
   match l with [] => None | u :: r => if u_id u =? id then Some u else find_undel id r end.
@@ -173,7 +193,7 @@ Definition remove_undel (id : Z) (l : list undel) : list undel := filter (fun u 
 Definition pay_undel (s : st) (who : Z) (u : undel) : st :=
   mkSt (time s) (height s) (slashed s) (stake s) (shares s) (ssup s) (csubs (modb s) (u_amt u)) (fee s) (treas s)
        (aadds (nbal s) who (u_amt u)) (sbal s) (rew s) (remove_undel (u_id u) (undels s)) (last s)
-       (dels s) (comp s) (votes s) (prev s).
+       (dels s) (comp s) (votes s) (prev s) (tsup s).
 
 (* msgServer.ClaimUndelegation *)
 Definition claim (v : variant) (who id : Z) (s : st) : outcome st :=
@@ -207,7 +227,7 @@ Definition slash (c : cfg) (sl : Z) (s : st) : outcome st :=
   let tsend : cmap := fun d => if d =? 0 then 0 else lost d in
   if existsb (fun d => modb s d <? tsend d) (c_dens c) then Panic "insufficient funds" else
   Ok (mkSt (time s) (height s) sl newstake (shares s) (ssup s) (cminus (modb s) lost) (cplus (fee s) tsend)
-           (cplus (treas s) tsend) (nbal s) (sbal s) (rew s) (undels s) (last s) (dels s) (comp s) (votes s) (prev s)).
+           (cplus (treas s) tsend) (nbal s) (sbal s) (rew s) (undels s) (last s) (dels s) (comp s) (votes s) (prev s) (tsup s)).
 
 (* bank send of share tokens between accounts *)
 Definition send_shares (from to : Z) (amts : coins) (s : st) : outcome st :=
@@ -221,7 +241,7 @@ Definition claim_rewards (c : cfg) (who : Z) (s : st) : outcome st :=
   if existsb (fun d => fee s d <? r d) (c_dens c) then Panic "insufficient funds" else
   Ok (mkSt (time s) (height s) (slashed s) (stake s) (shares s) (ssup s) (modb s) (cminus (fee s) r) (treas s)
            (aset (nbal s) who (cplus (nbal s who) r)) (sbal s) (aset (rew s) who czero)
-           (undels s) (last s) (dels s) (comp s) (votes s) (prev s)).
+           (undels s) (last s) (dels s) (comp s) (votes s) (prev s) (tsup s)).
 
 (* msgServer.RegisterDelegator (below MaxDelegators) *)
 Fixpoint register_scan (c : cfg) (s : st) (who : Z) (ds : list Z) : outcome bool :=
@@ -289,7 +309,7 @@ Definition autocompound_one (c : cfg) (a : Z) (s : st) : outcome st :=
   | _ =>
       if negb (all_gte (fee s) auto) then Panic "insufficient funds" else
       let s := mkSt (time s) (height s) (slashed s) (stake s) (shares s) (ssup s) (modb s) (csubs (fee s) auto) (treas s)
-                    (aadds (nbal s) a auto) (sbal s) (rew s) (undels s) (last s) (dels s) (comp s) (votes s) (prev s) in
+                    (aadds (nbal s) a auto) (sbal s) (rew s) (undels s) (last s) (dels s) (comp s) (votes s) (prev s) (tsup s) in
       match delegate c a auto s with
       | Ok s => Ok (set_comp s (fun b => if b =? a then (all, cds, height s) else comp s b))
       | Err e => Panic e
@@ -328,7 +348,7 @@ Definition pay_validator (c : cfg) (v : Z) (vr : cmap) (s : st) : outcome st :=
   if existsb (fun d => fee s d <? vr d) (c_dens c) then Panic "insufficient funds" else
   Ok (mkSt (time s) (height s) (slashed s) (stake s) (shares s) (ssup s) (modb s) (cminus (fee s) vr) (treas s)
            (aset (nbal s) (val_acct v) (cplus (nbal s (val_acct v)) vr)) (sbal s) (rew s)
-           (undels s) (last s) (dels s) (comp s) (votes s) (prev s)).
+           (undels s) (last s) (dels s) (comp s) (votes s) (prev s) (tsup s)).
 
 (* AllocateTokens (InflationPossible = true; the minted inflation [infl] is an input) *)
 Definition allocate (c : cfg) (infl : Z) (s : st) : outcome st :=
@@ -350,15 +370,17 @@ Definition allocate (c : cfg) (infl : Z) (s : st) : outcome st :=
             else Ok s1);
   Ok (set_treas s2 (fee s2)).
 
+Definition recorded (v : variant) (commit : list (Z * bool)) : list Z :=
+  map fst (filter (fun e => negb (v_signers_only v) || snd e) commit).
 Definition add_votes (commit : list Z) (h : Z) (vs : list (Z * Z)) : list (Z * Z) :=
   fold_left (fun acc v => if existsb (fun p => (fst p =? v) && (snd p =? h)) acc then acc else acc ++ [(v, h)]) commit vs.
 
 (* distributor BeginBlocker of the next block *)
-Definition begin_block (c : cfg) (dt : Z) (commit : list Z) (proposer : Z) (possible : bool) (infl : Z) (s : st)
+Definition begin_block (v : variant) (c : cfg) (dt : Z) (commit : list (Z * bool)) (proposer : Z) (possible : bool) (infl : Z) (s : st)
   : outcome st :=
   let s0 := set_clock s (time s + dt) (height s + 1) in
   do s1 <- (if (1 <? height s0) && possible then allocate c infl s0 else Ok s0);
-  let vs := add_votes commit (height s0) (votes s1) in
+  let vs := add_votes (recorded v commit) (height s0) (votes s1) in
   let vs := filter (fun p => negb (snd p + c_snap c <=? height s0)) vs in
   Ok (set_votes s1 vs proposer).
 
@@ -382,13 +404,13 @@ Inductive op : Type :=
 | OAdvance (dt : Z)                                     (* block time passes *)
 | OSetVotes (vs : list (Z * Z))                         (* keeper-level SetValidatorVote (allocation tests) *)
 | OAllocate (possible : bool) (infl : Z)                                  (* keeper-level AllocateTokens *)
-| OBegin (dt : Z) (commit : list Z) (proposer : Z) (possible : bool) (infl : Z)
+| OBegin (dt : Z) (commit : list (Z * bool)) (proposer : Z) (possible : bool) (infl : Z)
 | OEnd.
 
 Definition step (v : variant) (c : cfg) (o : op) (s : st) : outcome st :=
   match o with
   | ODelegate who amts => delegate c who amts s
-  | OUndelegate who amts => undelegate c who amts s
+  | OUndelegate who amts => undelegate v c who amts s
   | OClaim who id => claim v who id s
   | OClaimMatured who => claim_matured who s
   | OSlash sl => slash c sl s
@@ -401,7 +423,7 @@ Definition step (v : variant) (c : cfg) (o : op) (s : st) : outcome st :=
   | OAdvance dt => Ok (set_clock s (time s + dt) (height s))
   | OSetVotes vs => Ok (set_votes s vs (prev s))
   | OAllocate possible infl => if possible then allocate c infl s else Ok s
-  | OBegin dt commit p possible infl => begin_block c dt commit p possible infl s
+  | OBegin dt commit p possible infl => begin_block v c dt commit p possible infl s
   | OEnd => end_block v c s
   end.
 
